@@ -52,6 +52,10 @@ CHECKS = {
                 technique="ApplyIv/NewIv in RtrSocket.tla + I_C17 on MCRtrSocket + trace validation of the socket's intervals after every event, of rtr_init's verdict and of every receive timeout while established (monitor OK_C17)",
                 text="Boundary values (0, lo-1, lo, lo+1, hi-1, hi, hi+1, 2^31, 2^32-1) for all three intervals in End of Data under all four modes and initial settings; TLC recomputes the socket's intervals after every End of Data, checks v0 never changes them, that rtr_init rejects out-of-range settings, and that the timeout handed to the transport while established is max(0, last sync + refresh - now) followed at once by a Serial Query.",
                 note="small alphabets on the model side (cfg header); finite seeded conversations on the code side; the simulated cache closes the connection after an Error Report; NDEBUG+ASan build, virtual clock via --wrap; trusts TLC and the harness's PDU codec/logging"),
+    "C15": dict(engine="mgr", cat="model_checking", ref="5/C15",
+                technique="TLC on MCRtrMgr (RtrMgr.tla: rtr_mgr_cb and friends as coded; the four clauses of C15 as action properties) + trace validation of the real rtr_mgr code under TLC-generated and seeded event sequences (RtrMgrTrace.tla)",
+                text="TLC explores every sequence of legal socket state changes, expiries, group additions and removals for 3x1, 2x2 (quick) and dynamic (thorough) configurations and checks: ESTABLISHED only if all sockets hold data, all less-preferred groups closed on establishment, never stopped for a worse group, failover starts the most-preferred closed group. The real rtr_mgr_init/cb/add/remove (rtr_start/rtr_stop link-wrapped) is driven by TLC-generated and seeded sequences incl. invalid configurations; statuses in for_each order, first group, running sockets, callbacks and return codes are checked by TLC after every step.",
+                note="rtr_start/rtr_stop are stubs reproducing their state effects; bounded configurations on the model side; seeded samples on the code side; NDEBUG+ASan"),
 }
 
 NA_REASON = "check not built yet in this round (planned: see DESIGN.md section 5); no claim is made"
